@@ -234,7 +234,13 @@ func (o *Operator) HandleDeploy(ctx context.Context, req *workerpb.DeployOperato
 }
 
 func (o *Operator) HandleRemoveCheckpoints(ctx context.Context, req *workerpb.UpdateRetainedCheckpointsRequest) error {
-	return o.db.UpdateRetainedCheckpoints(req.CheckpointIds)
+	o.mu.RLock()
+	db := o.db
+	o.mu.RUnlock()
+	if db == nil {
+		return nil // not deployed yet: there is no database and nothing to retain
+	}
+	return db.UpdateRetainedCheckpoints(req.CheckpointIds)
 }
 
 func (o *Operator) HandleNeedsTable(fileURI string) bool {
